@@ -211,8 +211,11 @@ func PadFloats(vs []float64, n int) []float64 {
 // GenPad draws a padded buffer length: mostly 0 (no padding), otherwise a
 // length around typical block thresholds.
 func GenPad(t *rapid.T) int {
+	if Chance(t, "padHuge", 1, 400) { // beyond 65536 samples, not a multiple of 4
+		return rapid.SampledFrom([]int{65537, 65538, 65539, 70001}).Draw(t, "padHugeLen")
+	}
 	if rapid.IntRange(0, 3).Draw(t, "padSel") != 0 {
 		return 0
 	}
-	return rapid.SampledFrom([]int{63, 64, 65, 255, 256, 257, 1023, 1024, 1025, 2048, 4096, 4097, 10001, 65537, 65539}).Draw(t, "pad")
+	return rapid.SampledFrom([]int{63, 64, 65, 255, 256, 257, 1023, 1024, 1025, 2048, 4096, 4097, 10001}).Draw(t, "pad")
 }
